@@ -35,6 +35,8 @@ func Run(r *core.Report, env *build.Env) {
 		{Pkg: pk, Func: "VerifC03Tokens1", Bound: "parser/resolver/typechecker: every token kind as a 1-token program"},
 		{Pkg: pk, Func: "VerifC03Tokens2", Bound: "parser/resolver/typechecker: every sequence of 2 token kinds"},
 		{Pkg: pk, Func: "VerifC03AfterPrefix1", Bound: "11 concrete openings of declarations/statements continued by every token kind"},
+		{Pkg: pk, Func: "VerifC03AliasText2", Bound: "a function declaration whose alias text ends in 2 arbitrary bytes"},
+		{Pkg: pk, Func: "VerifC03AliasTextBool2", Bound: "the same for a function returning a Wahrheitswert (negation markers)"},
 		{Pkg: pk, Func: "VerifC03AfterPrefix2", Bound: "11 concrete openings continued by every sequence of 2 token kinds"},
 	}
 	if r.Tier == "thorough" {
@@ -43,6 +45,7 @@ func Run(r *core.Report, env *build.Env) {
 			goh.Harness{Pkg: pk, Func: "VerifC03LexAliasN3", Bound: "scanner (alias mode) + literal helpers: all byte strings of length 3"},
 			goh.Harness{Pkg: pk, Func: "VerifC03ParseN3", Bound: "whole frontend: all sources of 3 bytes", Opts: gose.Options{Deadline: 40 * time.Minute}},
 			goh.Harness{Pkg: pk, Func: "VerifC03Tokens3", Bound: "parser/resolver/typechecker: every sequence of 3 token kinds", Opts: gose.Options{Deadline: 40 * time.Minute}},
+			goh.Harness{Pkg: pk, Func: "VerifC03AliasTextBool3", Bound: "alias text of a Wahrheitswert function ending in 3 arbitrary bytes", Opts: gose.Options{Deadline: 40 * time.Minute}},
 			goh.Harness{Pkg: pk, Func: "VerifC03Tokens3Indented", Bound: "every sequence of 3 token kinds, second line indented", Opts: gose.Options{Deadline: 40 * time.Minute}},
 		)
 	}
